@@ -3,6 +3,7 @@ package c09
 
 import (
 	"fmt"
+	"runtime"
 	"testing"
 	"time"
 
@@ -522,6 +523,7 @@ var topicsAssumptions = []string{
 func TestTopics(t *testing.T) {
 	r := kit.NewRec("C09", "Topics", topicsRule, topicsAssumptions...)
 	kit.Check(t, r, genTopics, runTopics)
+	t.Logf("goroutines at the end of the unit: %d", runtime.NumGoroutine())
 }
 
 func TestReplayTopics(t *testing.T) {
